@@ -162,3 +162,13 @@ func VerifSetSTS(c *Client, port, duration int, receivedAgo time.Duration, lastF
 
 // VerifDisableTracking reports the private tracking switch.
 func VerifTrackingDisabled(c *Client) bool { return c.Config.disableTracking }
+
+// VerifScribbleModes overwrites, in place, every element of the mode list reachable from m
+// (snapshot-isolation check: the backing array must not be shared with the tracked state).
+func VerifScribbleModes(m *CModes) {
+	for i := range m.modes {
+		m.modes[i].name = '!'
+		m.modes[i].args = "scribbled"
+	}
+	m.raw, m.prefixes = "scribbled", "scribbled"
+}
